@@ -19,6 +19,10 @@ type SwComponents[I ISwComponent] struct {
 
 func (o SwComponents[I]) Validate() error {
 	for i, sc := range o.values {
+		if isNilSwComponent(sc) {
+			return fmt.Errorf("failed at index %d: %w: nil software component", i, ErrWrongSyntax)
+		}
+
 		if err := sc.Validate(); err != nil {
 			return fmt.Errorf("failed at index %d: %w", i, err)
 		}
@@ -31,6 +35,10 @@ func (o SwComponents[I]) Values() ([]ISwComponent, error) {
 	ret := make([]ISwComponent, len(o.values))
 
 	for i, sc := range o.values {
+		if isNilSwComponent(sc) {
+			return nil, fmt.Errorf("failed at index %d: %w: nil software component", i, ErrWrongSyntax)
+		}
+
 		if err := sc.Validate(); err != nil {
 			return nil, fmt.Errorf("failed at index %d: %w", i, err)
 		}
@@ -87,6 +95,10 @@ func validateAndConvert[I ISwComponent](vals []ISwComponent) ([]I, error) {
 	ret := make([]I, len(vals))
 
 	for i, sc := range vals {
+		if isNilSwComponent(sc) {
+			return nil, fmt.Errorf("failed at index %d: %w: nil software component", i, ErrWrongSyntax)
+		}
+
 		if err := sc.Validate(); err != nil {
 			return nil, fmt.Errorf("failed at index %d: %w", i, err)
 		}
@@ -101,4 +113,16 @@ func validateAndConvert[I ISwComponent](vals []ISwComponent) ([]I, error) {
 	}
 
 	return ret, nil
+}
+
+// isNilSwComponent returns true if sc does not hold an actual component, e.g.
+// because the corresponding array entry in the decoded CBOR or JSON was null.
+func isNilSwComponent(sc ISwComponent) bool {
+	if sc == nil {
+		return true
+	}
+
+	v := reflect.ValueOf(sc)
+
+	return v.Kind() == reflect.Pointer && v.IsNil()
 }
